@@ -38,7 +38,7 @@ r = subprocess.run([sys.executable, os.path.join(VERIF, 'tools', 'mutant_eval.py
 res['checks'] = r.stdout.strip().split('\n')
 res['caught_by'] = sorted(set(re.findall(r'VIOLATION property=(\w+)', r.stdout)))
 # keep the first replay of each catching check as an example
-dst = os.path.join(VERIF, 'seeded', '%s_%s' % (pid, n))
+dst = os.path.join(VERIF, 'seeded', '%s_%s%s' % (pid, os.environ.get('SEED_TAG', ''), n))
 os.makedirs(dst, exist_ok=True)
 shutil.copy(diff, os.path.join(dst, 'patch.diff'))
 shutil.copy(os.path.join(out, 'demo%s.cpp' % n), os.path.join(dst, 'demo.cpp'))
